@@ -168,6 +168,30 @@ def stratum(s):
     return (sc["L"], len(sc["leaves"][0]["key"]), serving_levels(sc, exp), exp["T"] < 10, only_out, at_thr)
 
 
+def dedupe_projected(scens):
+    """Two scenarios whose structure at the requested level is the same (same groups of the first L key columns, same
+    calibration count and outstanding flag per group) are the same abstract scenario of the property at that level:
+    the split of a group's units over finer keys that are not requested cannot matter.  Keep one representative per
+    projected structure when L is smaller than the leaf depth; keep everything when L = depth."""
+    seen, out = set(), []
+    for s in scens:
+        sc = s["sc"]
+        L, D = sc["L"], len(sc["leaves"][0]["key"])
+        if L == D:
+            out.append(s)
+            continue
+        g = {}
+        for lf in sc["leaves"]:
+            k = _key(lf["key"])[:L]
+            c, o = g.get(k, (0, False))
+            g[k] = (c + lf["cal"], o or lf["out"])
+        sig = (L, D, tuple(sorted((k, v[0], v[1]) for k, v in g.items())))
+        if sig not in seen:
+            seen.add(sig)
+            out.append(s)
+    return out
+
+
 def sample_stratified(scens, n, rnd):
     if n >= len(scens):
         return list(scens), True
@@ -262,7 +286,6 @@ def real_traces(run, n_runs, seed, boot_iter):
         L = tr["sc"]["L"]
         cal = {tuple(lf["key"]): lf["cal"] for lf in tr["sc"]["leaves"]}
         ncal = sum(cal.values())
-        pools = {tuple(map(tuple, r["pool"])) for r in tr["obs"]["modeled"]}
         for r in tr["obs"]["modeled"]:
             own = [list(r["key"])] == [list(k) for k in r["pool"]]
             if own:
@@ -275,7 +298,6 @@ def real_traces(run, n_runs, seed, boot_iter):
                 run.witness("trace_group_present_only_among_nonreporting_units")
         if L == 3:
             run.witness("trace_three_column_list")
-        del pools
 
     def on_reject(tr, clause, inv):
         run.violation(clause, {"clause": clause, "invariant": inv, "direction": "trace", "L": tr["sc"]["L"]}, {"trace": tr})
@@ -398,7 +420,9 @@ def c15(tier, seed):
         pick, complete = sample_stratified(scens, 1500, rnd)
         replay(run, pick, seed, boot_fast, "stratified sample of the exported terminal states, boot_sigma num_iterations=200")
     else:
-        replay(run, scens, seed, boot_fast, "all exported terminal states, boot_sigma num_iterations=200")
+        full = dedupe_projected(scens)
+        run.cov["replay_universe"] = {"exported": len(scens), "after_merging_identical_projected_structures": len(full)}
+        replay(run, full, seed, boot_fast, "all exported terminal states (one per projected structure where L < depth), boot_sigma num_iterations=200")
         run.cov["exhaustive"] = True
         pick, _ = sample_stratified(scens, 1200, rnd)
         replay(run, pick, seed + 1, None, "stratified sample, boot_sigma unmodified (10000 resamples)")
@@ -408,7 +432,7 @@ def c15(tier, seed):
     if not quick:
         selftest(run)
     # 3. code -> spec
-    real_traces(run, 21 if quick else 240, seed + 5, 300 if quick else None)
+    real_traces(run, 21 if quick else 200, seed + 5, 300 if quick else None)
     req = [
         "exported_scenarios",
         "group_served_by_own_calibration",
